@@ -8,7 +8,7 @@ use reval::prelude::*;
 use serde_json::json;
 use std::process::Command;
 
-pub const CONSTRUCTS: [&str; 30] = [
+pub const CONSTRUCTS: [&str; 33] = [
     "unary-chain",
     "not-chain",
     "paren-nest",
@@ -40,6 +40,9 @@ pub const CONSTRUCTS: [&str; 30] = [
     "long-int-literal",
     "meta-nested-lists",
     "meta-nested-maps",
+    "binary-chain-then-error",
+    "access-chain-then-error",
+    "list-of-chain-then-error",
 ];
 
 /// contexts covering every grammar production; `{}` is filled with a deep sub-expression.  These
@@ -109,6 +112,11 @@ pub fn text_for(construct: &str, n: usize) -> String {
         "cast-datetime-long-fraction" => format!("datetime(\"2015-07-30T03:26:13.{}Z\")", "1".repeat(n)),
         "long-decimal-literal" => format!("d{}1.5", "0".repeat(n)),
         "long-int-literal" => format!("i{}1", "0".repeat(n)),
+        // flat chains that end in a syntax error: the parser has already folded them into a deep
+        // tree, which it drops on its error path
+        "binary-chain-then-error" => format!("x{} +", " + x".repeat(n)),
+        "access-chain-then-error" => format!("m{}.", ".a".repeat(n)),
+        "list-of-chain-then-error" => format!("[x{}, ", " + x".repeat(n)),
         // valid rules whose metadata value is nested deep (constant folding of metadata recurses)
         "meta-nested-lists" => format!("@k: {}i1{};\nx", "[".repeat(n), "]".repeat(n)),
         "meta-nested-maps" => format!("@k: {}i1{};\nx", "{a: ".repeat(n), "}".repeat(n)),
